@@ -229,6 +229,21 @@ def run(tier, logdir):
             return "(= %s %s)" % (a, want[0])
         check_sites("F4 Drawable::draw hands the stored force flag to MultiState::draw", fn, r"MultiState::draw$", 1, f4_claim)
         enc.append("Drawable::draw")
+        # ---- vacuity witness: the same machinery must flag a planted call site whose force flag is not forced
+        planted = M.MirFn("fn planted(_1: &mut BarState, _2: bool, _3: Instant) -> () {", "state::planted", [("_1", "&mut BarState"), ("_2", "bool"), ("_3", "Instant")], "()", [
+            "    let mut _4: bool;", "    let _5: ();", "",
+            "    bb0: {", "        switchInt(copy _2) -> [0: bb1, otherwise: bb2];", "    }", "",
+            "    bb1: {", "        _4 = const false;", "        goto -> bb3;", "    }", "",
+            "    bb2: {", "        _4 = const true;", "        goto -> bb3;", "    }", "",
+            "    bb3: {", "        _5 = BarState::draw(copy _1, copy _4, copy _3) -> [return: bb4, unwind continue];", "    }", "",
+            "    bb4: {", "        return;", "    }"])
+        before = len(queries)
+        check_sites("witness", planted, r"BarState::draw$", 1, const_true)
+        w = queries[before:]
+        del queries[before:]
+        okw = len(w) == 1 and w[0]["verdict"] == "FAIL"
+        queries.append({"name": "witness: a planted call site whose force flag can be false is flagged", "verdict": "PASS" if okw else "BROKEN", "why": "" if okw else "planted site not flagged: %s" % [q["verdict"] for q in w], "wall_s": 0})
+
         # ---- D: dropping a bar
         src_st = open(os.path.join(common.REPO, "src", "state.rs")).read()
         k_inprog = variant_index(src_st, "Status", "InProgress")
